@@ -94,7 +94,7 @@ def _worker(args):
     return key, check_definition(key, tmp, run_python and n_extra <= 2)
 
 
-def run(ctx):
+def _run(ctx):
     import multiprocessing as mp
 
     ctx.level = "other"
@@ -135,7 +135,7 @@ def _tuplify(x):
     return tuple(_tuplify(i) for i in x) if isinstance(x, list) else x
 
 
-def replay(rec):
+def _replay(rec):
     key = _tuplify(rec["case"]["key"])
     tmp = Path(tempfile.mkdtemp(prefix="vf_c32_"))
     try:
@@ -147,3 +147,13 @@ def replay(rec):
         print(f"VIOLATION property=C32 replay={rec.get('_path', '')}")
         return 1
     return 0
+
+
+def run(ctx):
+    with T.private_hash_cache():
+        _run(ctx)
+
+
+def replay(rec):
+    with T.private_hash_cache():
+        return _replay(rec)
